@@ -34,6 +34,8 @@ class ModelsOps:
                 return False
             if self.st.T(spec.tid).generic:
                 return True
+            if spec.tid == "cls:Money":
+                return self.decide_money(v.tid, node)
             return self.decide_same_type(v.tid, spec.tid, node, "isinstance")
         if isinstance(spec, OpaqueV):
             if spec.tag.startswith("typing.") or spec.tag.startswith("alias:"):
@@ -305,6 +307,15 @@ class ModelsOps:
                 rf = l.rf / r.rf
             elif op is ast.Pow:
                 e = self.exp_of(r, node)
+                base = self.st.norm(l.rf)
+                if e is None and base.is_const() and base.const_value() > 0 and r.kind in ("int", "bool"):
+                    # c ** <integer expression>: an opaque positive power of the constant, keyed by the exponent
+                    c = base.const_value()
+                    tag = "pw10" if c == 10 else f"cpow{c}"
+                    at = (tag, repr(self.st.norm(r.rf)))
+                    self.st.pow_exps = getattr(self.st, "pow_exps", {})
+                    self.st.pow_exps[at] = self.st.norm(r.rf)
+                    return Num(RF.atom(at), "dec" if l.kind == "dec" else l.kind)
                 if e is None:
                     self.I.unsupported(node, "non-linear exponent")
                 rf = self.st.norm(l.rf).pow_sym(e)
